@@ -541,6 +541,64 @@ func rulePG(c *Ctx) {
 			}
 		}
 	}
+	// no recursion: the static call graph of the package (interface calls resolved to every package method of that
+	// name) is acyclic, so loops are the only source of repetition
+	adj := map[*ssa.Function][]*ssa.Function{}
+	for _, k := range names {
+		fn := c.SFuncs[k]
+		for _, b := range fn.Blocks {
+			for _, ins := range b.Instrs {
+				var cc *ssa.CallCommon
+				switch x := ins.(type) {
+				case *ssa.Call:
+					cc = &x.Call
+				case *ssa.Defer:
+					cc = &x.Call
+				case *ssa.Go:
+					cc = &x.Call
+				}
+				if cc == nil {
+					continue
+				}
+				if cal := cc.StaticCallee(); cal != nil {
+					if cal.Pkg == fn.Pkg || cal.Parent() != nil {
+						adj[fn] = append(adj[fn], cal)
+					}
+					continue
+				}
+				if cc.IsInvoke() {
+					for _, k2 := range names {
+						if g := c.SFuncs[k2]; g.Signature.Recv() != nil && g.Name() == cc.Method.Name() {
+							adj[fn] = append(adj[fn], g)
+						}
+					}
+				}
+			}
+		}
+	}
+	color := map[*ssa.Function]int{}
+	cyc := ""
+	var dfs func(f *ssa.Function) bool
+	dfs = func(f *ssa.Function) bool {
+		color[f] = 1
+		for _, g := range adj[f] {
+			if color[g] == 1 {
+				cyc = ssaKey(f) + " -> " + ssaKey(g)
+				return true
+			}
+			if color[g] == 0 && dfs(g) {
+				return true
+			}
+		}
+		color[f] = 2
+		return false
+	}
+	for _, k := range names {
+		if f := c.SFuncs[k]; color[f] == 0 && dfs(f) {
+			break
+		}
+	}
+	c.check(cyc == "", "PG", "no-recursion", token.NoPos, "the static call graph of the package is acyclic (interface calls resolved by method name): loops are the only repetition "+cyc)
 	c.check(nloops >= 40, "PG", "loops", token.NoPos, fmt.Sprintf("%d loops analysed: %d with a proved ranking variable, %d relying on named callee progress (frozen minimum 40)", nloops, nproved, nassumed))
 }
 
